@@ -298,6 +298,10 @@ func ruleProgressParser(c *Ctx, r *R) {
 				r.ok(key+":bounded", site, why)
 				continue
 			}
+			if why, ok := structuralDescentLoop(h, body); ok {
+				r.ok(key+":descent", site, why)
+				continue
+			}
 			// (a) advance
 			cut := map[*ssa.BasicBlock]bool{}
 			for b := range body {
@@ -466,6 +470,70 @@ func reslicedFrom(v ssa.Value, phi *ssa.Phi, d int) bool {
 			}
 		}
 		return true
+	}
+	return false
+}
+
+// structuralDescentLoop: the loop walks down a finished data structure - a variable of the loop head is replaced, on
+// every way round, by a field of the value it held (`for { switch s := stmt.(type) { case *L: stmt = s.Inner ...`).
+// The syntax tree the parser builds is finite and acyclic (nodes are created once and never linked upwards), so the
+// walk ends; it reads no input.
+func structuralDescentLoop(h *ssa.BasicBlock, body map[*ssa.BasicBlock]bool) (string, bool) {
+	for _, ins := range h.Instrs {
+		phi, ok := ins.(*ssa.Phi)
+		if !ok {
+			break
+		}
+		nBack, all := 0, true
+		for i, e := range phi.Edges {
+			if !body[h.Preds[i]] {
+				continue
+			}
+			nBack++
+			if !fieldOfValue(e, phi, 0) {
+				all = false
+			}
+		}
+		if nBack > 0 && all {
+			// every cycle must pass a back edge into h, i.e. reassign the variable; nothing else to show
+			return "structural descent: " + phi.Comment + " is replaced by a field of itself on every back edge (finite, acyclic tree)", true
+		}
+	}
+	return "", false
+}
+
+// fieldOfValue: v is a field (of a type assertion) of root.
+func fieldOfValue(v, root ssa.Value, depth int) bool {
+	if depth > 4 {
+		return false
+	}
+	switch x := v.(type) {
+	case *ssa.UnOp:
+		if x.Op == token.MUL {
+			if fa, ok := x.X.(*ssa.FieldAddr); ok {
+				return derivedFrom(fa.X, root, 0)
+			}
+		}
+	case *ssa.Field:
+		return derivedFrom(x.X, root, 0)
+	}
+	return false
+}
+
+func derivedFrom(v, root ssa.Value, depth int) bool {
+	if v == root {
+		return true
+	}
+	if depth > 4 {
+		return false
+	}
+	switch x := v.(type) {
+	case *ssa.TypeAssert:
+		return derivedFrom(x.X, root, depth+1)
+	case *ssa.Extract:
+		return derivedFrom(x.Tuple, root, depth+1)
+	case *ssa.ChangeInterface:
+		return derivedFrom(x.X, root, depth+1)
 	}
 	return false
 }
